@@ -2,7 +2,7 @@
 From Coq Require Import List Bool NArith.
 Import ListNotations.
 From JS Require Import Model.Base Model.Shape Model.Sem Model.Subset Model.Infer Model.Api
-  Proofs.SubsetFacts Proofs.SupersetFacts.
+  Proofs.SubsetFacts Proofs.SupersetFacts Proofs.SupersetFragment.
 
 Theorem C03_self : forall s, wf s = true -> is_subset s s = true.
 Proof. exact subset_refl. Qed.
@@ -14,7 +14,19 @@ Theorem C03_single_source : forall d s, from_sources_tree [d] = Ok s ->
 Proof. exact single_source_superset. Qed.
 Print Assumptions C03_single_source.
 
-(* PARTIAL. Full statement (false of the faithful model, see below):
+(* any number of sources, whenever the merged shape contains no OneOf: every source is accepted,
+   in all three forms the property lists *)
+Theorem C03_oneof_free_subset : forall ds m, from_sources_tree ds = Ok m -> oneof_free m = true ->
+  forall d sd, In d ds -> infer_text d = Ok sd -> is_subset sd m = true.
+Proof. exact sources_accept_free. Qed.
+Print Assumptions C03_oneof_free_subset.
+
+Theorem C03_oneof_free_superset : forall ds m, from_sources_tree ds = Ok m -> oneof_free m = true ->
+  forall d, In d ds -> is_superset_tree m d = true /\ is_superset_checked_tree m d = Ok true.
+Proof. exact sources_superset_free. Qed.
+Print Assumptions C03_oneof_free_superset.
+
+(* PARTIAL beyond that class. Full statement (false of the faithful model, see below):
      forall ds s, from_sources_tree ds = Ok s -> forall d, In d ds ->
        is_superset_tree s d = true /\ is_superset_checked_tree s d = Ok true /\
        (forall sd, infer_text d = Ok sd -> is_subset sd s = true).
